@@ -96,7 +96,7 @@ class ConnModel(object):
     # ------------------------------------------------------------------ helpers
     # kinds that do not depend on the reference's prediction of the server stream: reported even after the
     # prediction has been given up (don't-care input, injected fault)
-    STRUCTURAL = frozenset(['grammar', 'event-after-terminal', 'app-exception', 'graceful-flag', 'second-close', 'data-after-close',
+    STRUCTURAL = frozenset(['self-disconnect', 'grammar', 'event-after-terminal', 'app-exception', 'graceful-flag', 'second-close', 'data-after-close',
                             'send-raised-but-wrote', 'wire-invalid-frame', 'wire-garbage', 'close-raised', 'app-frame-invalid'])
 
     def problem(self, kind, msg):
@@ -415,6 +415,11 @@ class ConnModel(object):
 
     def on_disconnected(self, world, ws, ev):
         g = bool(ev.graceful)
+        timers = self.cfg.get('connect', {})
+        if (self.hs == 'done' and not self.transport_down and self.server_close is None and self.client_close is None
+                and 'protocol_error' not in self.seen_names and not timers.get('ping_timeout') and not timers.get('close_timeout')):
+            # the transport is up, nobody closed, nothing was violated, no time-out is configured: the client has no reason to stop
+            self.problem('self-disconnect', 'client ended a healthy connection by itself: %r (trace %s)' % (ev.reason, self.trace[-6:]))
         if self.server_close is not None and self.server_close[0] == 'closed' and not g:
             self.problem('graceful-flag', 'Closed was yielded but Disconnected.graceful is False')
         if self.server_close is not None and self.server_close[0] == 'closing' and self.transport_down == 'eof' and not g \
